@@ -559,18 +559,23 @@ def rule_noise_update(ctx, rid):
     vals = []
     for node, sms in ev.loops_seen.items():
         for sm in sms:
-            t = sm.entry_env.get('noise')
-            if t is not None:
-                vals.append(('before the layer loop', t, sm.entry_env))
+            # the noise matrix is whichever variable is combined with a pool map of `sift` (found by role)
+            for nm_, t in sorted(sm.entry_env.items()):
+                if t is not None and t[0] == 'bin':
+                    vals.append(('before the layer loop', t, sm.entry_env))
             for passno, how, e in sm.ends:
-                if how == 'continue' and e.env.get('noise') is not None:
-                    vals.append(('in the layer loop', e.env['noise'], e.env))
+                if how == 'continue':
+                    for nm_, t in sorted(e.env.items()):
+                        if t is not None and t[0] == 'bin':
+                            vals.append(('in the layer loop', t, e.env))
     n = 0
     bad = None
     for where, t, env in vals:
         is_upd = t[0] == 'bin' and any(x[0] == 'meth' and x[1] in ('starmap', 'map') and x[3] and
                                         x[3][0] in (('ref', 'emd.sift.sift'), ('func', 'emd.sift.sift'))
                                         for x in subterms(t[3]) if isinstance(x, tuple))
+        if not is_upd:
+            continue
         if t[0] == 'bin' and t[1] != '-' and is_upd:
             bad = '%s: the first IMFs of the noise columns are combined with the noise by `%s`, not subtracted from it' % (where, t[1])
             break
